@@ -1,18 +1,15 @@
 import Percival.Driver.Loop
-import Percival.Model.Entropy
+import Percival.Model.EntropyStep
 /-! `pmodel drbg`: L1 part from `Spec.HmacDrbg.Service` (SP 800-90A used as §9 prescribes), L2 part
 from the model of crypto_entropy.c (output summary, Key, V, reseed_counter, instantiated, number of
-unused OS answers).  Driver code, not part of any theorem. -/
+unused OS answers).  Thin by construction: `parse`, `Model.EntropyStep.stepOp`, `render`. -/
 namespace Percival.Driver.Drbg
-open Percival Percival.Driver Percival.Spec.HmacDrbg
+open Percival Percival.Driver Percival.Spec.HmacDrbg Percival.Model.EntropyStep
 
-structure St where
-  /-- specification side -/
-  ref : Option State := none
-  refOracle : Oracle := []
-  /-- model side -/
-  m : Model.Entropy.St := Model.Entropy.St.init
-  mOracle : Oracle := []
+def parse : List String → Option Op
+  | ["ent", a] => if a = "FAIL" then some (.ent none) else (bytesOfHex a).map fun b => .ent (some b)
+  | ["read", ns] => ns.toNat?.map .read
+  | _ => none
 
 def hex64 (n : UInt64) : String :=
   String.ofList ((List.range 16).map fun i => hexDigit ((n.toNat >>> (4 * (15 - i))) % 16))
@@ -32,25 +29,16 @@ def showOutcome : Outcome → String
   | .fail => "fail"
   | .abort => "abort"
 
+def render : Out → String
+  | .ent q => s!"ent | {q}"
+  | .read r1 r2 m q =>
+      let d := m.drbg
+      s!"{showOutcome r1} | {showOutcome r2} K={hexOfBytes d.key} V={hexOfBytes d.v} ctr={d.reseedCounter.toNat} inst={if m.instantiated then 1 else 0} q={q}"
+
 def step (s : St) (toks : List String) : St × String :=
-  match toks with
-  | ["ent", a] =>
-    let ans : Option (Option (List UInt8)) := if a = "FAIL" then some none else (bytesOfHex a).map some
-    match ans with
-    | none => (s, "bad-op")
-    | some x =>
-      let s := { s with refOracle := s.refOracle ++ [x], mOracle := s.mOracle ++ [x] }
-      (s, s!"ent | {s.mOracle.length}")
-  | ["read", ns] =>
-    match ns.toNat? with
-    | none => (s, "bad-op")
-    | some n =>
-      let (r1, ref', ro') := Service.read std s.ref s.refOracle n
-      let (r2, m', mo') := Model.Entropy.read Model.Entropy.Cfg.source s.m s.mOracle n
-      let d := m'.drbg
-      ({ ref := ref', refOracle := ro', m := m', mOracle := mo' },
-       s!"{showOutcome r1} | {showOutcome r2} K={hexOfBytes d.key} V={hexOfBytes d.v} ctr={d.reseedCounter.toNat} inst={if m'.instantiated then 1 else 0} q={mo'.length}")
-  | _ => (s, "bad-op")
+  match parse toks with
+  | some op => let r := stepOp s op; (r.1, render r.2)
+  | none => (s, "bad-op")
 
 def main (_args : List String) : IO UInt32 := loop {} step
 
